@@ -255,7 +255,10 @@ def wl_halfplane_infinite_vertex(run, rng, idx):
                             "draw_polygon added %d patches" % len(new), case)
         path = new[0].get_path()
         moves, pieces = rd.pieces_of(path)
-        up = float(d.up_infinity)
+        # off screen above: from the Axes limits and the margin factor, not from the
+        # drawing's cached up_infinity
+        y0_, y1_ = d.ax.get_ylim()
+        up = float(y1_ + D.OFFSCREEN_FACTOR * (y1_ - y0_))
         n = nfin + 1
         verts = [None if k == pos else fin[k if k < pos else k - 1] for k in range(n)]
         edges = [(verts[k], verts[(k + 1) % n]) for k in range(n)]
@@ -775,6 +778,149 @@ def wl_edit_redraw(run, rng, idx):
         plt.close("all")
 
 
+WINDOWS = {
+    # (xlim, ylim) classes per model: wider, shifted, asymmetric / one limit only, narrower
+    "halfspace": [((-40.0, 40.0), (-1.0, 30.0)), ((10.0, 34.0), (-0.5, 16.0)), ((-60.0, 5.0), None),
+                  (None, (-0.2, 3.0)), ((-25.0, 90.0), (-2.0, 60.0)), ((-2.0, 1.5), (-0.05, 2.0))],
+    "disc": [((-3.0, 3.0), (-3.0, 3.0)), ((-0.2, 1.05), (-0.6, 0.7)), ((-1.1, 0.1), None),
+             (None, (-0.3, 0.3)), ((-5.0, 1.5), (-1.2, 4.0)), ((-0.35, 0.3), (-0.25, 0.4))],
+    "projective": [((-40.0, 40.0), (-40.0, 40.0)), ((10.0, 50.0), (-30.0, -5.0)), ((-100.0, 3.0), (-5.0, 5.0)),
+                   ((-1.0, 1.0), (-0.5, 0.5)), ((200.0, 260.0), (150.0, 190.0)), ((-5.0, 5.0), (0.0, 80.0))],
+}
+
+
+def wl_windows(run, rng, idx):
+    """custom windows (xlim / ylim of the drawing constructors: wider, shifted,
+    asymmetric, only one of the two, narrower than the default) with objects
+    placed inside the custom window -- for wider / shifted windows outside the
+    default one: in the half-plane polygons and segments with exactly vertical
+    edges, nearly vertical edges above the radius threshold and ordinary arcs,
+    points and horospheres; in the disc models the same object kinds; in the
+    projective chart polygons inside it and crossing its line at infinity.
+    Everything is judged by the same postconditions, which take the window from
+    the Axes limits.  Seeded change C19-r7-1: off-screen bounds of the default
+    window kept for a custom window."""
+    H, D, PR, plt = libs()
+    family = ["halfspace", "halfspace", "disc", "projective"][idx % 4]
+    wx, wy = WINDOWS[family][(idx // 4) % 6]
+    what = ["polygon-vertical-edge", "segments", "polygon", "points-horospheres"][(idx // 4 + idx // 24) % 4] \
+        if family != "projective" else ["polygon", "crossing", "points-segments", "crossing"][(idx // 4 + idx // 24) % 4]
+    kwargs = {}
+    if wx is not None:
+        kwargs["xlim"] = wx
+    if wy is not None:
+        kwargs["ylim"] = wy
+    try:
+        if family == "projective":
+            d = D.ProjectiveDrawing(**kwargs)
+            d._gtmon_matrix = np.eye(3)
+            d._gtmon_window = (wx, wy)
+            run.current_case = {"workload": "windows", "family": family, "xlim": wx, "ylim": wy, "what": what}
+            ctr = np.array([np.mean(wx), np.mean(wy)])
+            half = np.array([wx[1] - wx[0], wy[1] - wy[0]]) / 2
+            if what == "polygon":
+                nv = int(rng.integers(3, 7))
+                aff = ctr + rng.uniform(-0.9, 0.9, size=(3, nv, 2)) * half
+                d.draw_polygon(PR.Polygon(np.insert(aff, 0, 1.0, axis=-1) * rng.choice([-1.0, 1.0], size=(3, 1, 1))))
+            elif what == "points-segments":
+                aff = ctr + rng.uniform(-0.9, 0.9, size=(4, 2, 2)) * half
+                Y = np.insert(aff, 0, 1.0, axis=-1) * rng.uniform(0.5, 2, size=(4, 2, 1))
+                d.draw_point(PR.Point(Y[:, 0]))
+                d.draw_proj_segment(PR.PointPair(Y))
+            else:
+                # triangles crossing the line at infinity: one vertex inside the window,
+                # the others 0.3..20 window diameters away on one side (convex cone)
+                diam = float(np.hypot(*(2 * half)))
+                Y = np.empty((3, 3, 3))
+                for j in range(3):
+                    th = rng.uniform(0, 2 * math.pi)
+                    e = np.array([math.cos(th), math.sin(th)])
+                    L = diam * math.exp(rng.uniform(math.log(0.3), math.log(20.0)))
+                    a = ctr - L * e + rng.uniform(-0.2, 0.2, 2) * L
+                    b = ctr - L * e * rng.uniform(1.5, 3.0) + rng.uniform(-0.2, 0.2, 2) * L
+                    c = ctr + rng.uniform(-0.8, 0.8, 2) * half if j == 0 else \
+                        ctr - L * e * rng.uniform(1.1, 1.4) + np.array([-e[1], e[0]]) * L * rng.uniform(0.3, 0.6)
+                    Y[j] = np.insert(np.stack([a, c, b]), 0, 1.0, axis=-1)
+                    Y[j, 2] *= -1.0
+                d.draw_polygon(PR.Polygon(Y), assume_affine=False)
+            run.note_class("windows", family, (wx, wy), what)
+            return
+        model = "halfspace" if family == "halfspace" else ["poincare", "klein"][(idx // 4) % 2]
+        d = D.HyperbolicDrawing(model="halfplane" if model == "halfspace" and idx % 8 == 1 else model, **kwargs)
+        d._gtmon_matrix = np.eye(3)
+        (x0, x1), (y0, y1) = d.ax.get_xlim(), d.ax.get_ylim()
+        d._gtmon_window = ((x0, x1) if wx is None else wx, (y0, y1) if wy is None else wy)
+        run.current_case = {"workload": "windows", "family": family, "model": model, "xlim": wx, "ylim": wy,
+                            "what": what}
+
+        def pts(n):
+            """n points of the model inside the custom window; in the half-plane
+            outside the default window whenever the custom one reaches there."""
+            for _ in range(500):
+                if model == "halfspace":
+                    x = rng.uniform(x0 + 0.05 * (x1 - x0), x1 - 0.05 * (x1 - x0), n)
+                    if x1 > 9 or x0 < -9:
+                        far = np.abs(x) > 7.5
+                        x = np.where(far, x, np.clip(np.sign(x + 1e-9) * rng.uniform(8, 9, n) + x, x0 * 0.95, x1 * 0.95))
+                    y = np.exp(rng.uniform(math.log(max(0.15, 0.02 * y1)), math.log(0.9 * y1), n))
+                    Z = np.stack([x, y], axis=-1)
+                    K = rc.halfspace_to_klein(Z)
+                    if np.min(rc.inf_distance(K)) > 0.03:
+                        return Z, K
+                else:
+                    K = rh.rand_ball(rng, 2, (n,), rmax=0.9)
+                    Z = rc.model_of_klein(K, model)
+                    inside = (Z[:, 0] > x0) & (Z[:, 0] < x1) & (Z[:, 1] > y0) & (Z[:, 1] < y1)
+                    if np.all(inside) or _ > 400:
+                        return Z, K
+            return None, None
+        if what in ("polygon-vertical-edge", "polygon"):
+            nv = 3 + idx % 3
+            Z, K = pts(nv)
+            if K is None:
+                return run.monitor("polygon-path").skip("generator")
+            if what == "polygon-vertical-edge" and model == "halfspace":
+                # edge 0 exactly vertical, edge 1 nearly vertical (radius far above the threshold)
+                Z[1, 0] = Z[0, 0]
+                Z[1, 1] = Z[0, 1] * rng.choice([0.3, 3.0])
+                if nv > 3:
+                    Z[2, 0] = Z[1, 0] + 1e-4 * rng.choice([-1, 1])
+                    Z[2, 1] = Z[1, 1] * 1.7
+                K = rc.halfspace_to_klein(Z)
+            X = rh.klein_to_proj(K) * rng.uniform(0.5, 2, size=(nv, 1))
+            run.current_case["vertices"] = X
+            poly = H.Polygon(X)
+            d.draw_polygon(poly, facecolor="lightgreen")
+            d.draw_geodesic(poly.get_edges())
+        elif what == "segments":
+            Z, K = pts(6)
+            if K is None:
+                return run.monitor("geodesic-artist").skip("generator")
+            if model == "halfspace":
+                Z[1, 0] = Z[0, 0]                     # one exactly vertical segment
+                Z[1, 1] = Z[0, 1] * 2.5
+                K = rc.halfspace_to_klein(Z)
+            X = rh.klein_to_proj(K)
+            run.current_case["endpoints"] = X
+            d.draw_geodesic(H.Segment(H.Point(X[0::2]), H.Point(X[1::2])))
+            d.draw_geodesic(H.Segment(H.Point(X[1]), H.Point(X[0])))
+        else:
+            Z, K = pts(4)
+            if K is None:
+                return run.monitor("point-artist").skip("generator")
+            X = rh.klein_to_proj(K)
+            d.draw_point(H.Point(X))
+            if model != "klein":
+                e = rh.rand_sphere(rng, 2, (4,))
+                e = np.where(rc.inf_distance(e)[..., None] < 0.3, -e, e)
+                d.draw_horosphere(H.Horosphere(H.IdealPoint(rh.klein_to_proj(e)), H.Point(X)))
+                if model == "halfspace":
+                    d.draw_horosphere(H.Horosphere(H.IdealPoint(np.array([1.0, 1.0, 0.0])), H.Point(X[0])))
+        run.note_class("windows", family, model, (wx, wy), what)
+    finally:
+        plt.close("all")
+
+
 def wl_special_positions(run, rng, idx):
     """exact special positions (generator gen/c11special: small dyadic Klein
     coordinates, lifts scaled by powers of two): a segment / polygon edge whose
@@ -886,6 +1032,7 @@ WORKLOADS = [
     Workload("special-positions", wl_special_positions, quick=27, thorough=540),
     Workload("thresholds", wl_thresholds, quick=32, thorough=640),
     Workload("edit-redraw", wl_edit_redraw, quick=54, thorough=1080),
+    Workload("windows", wl_windows, quick=28, thorough=960),
     Workload("wrong-dimension", wl_wrong_dimension, quick=48, thorough=192),
     Workload("docs", wl_docs, quick=18, thorough=180),
 ]
